@@ -20,7 +20,9 @@ def run(ctx):
     RC20.buffer_rules(ctx, "R20.c", None, "R20.f")
     RC20.forwarders(ctx, "R06.f", only=("limit-assign",))          # set_limit stores its `limit` parameter unchanged
     RR.rating_confinement(ctx, "R06.g", parts=("width",))    # the compared rating is the full-width rating (the pre-selection compares it as usize)
-    return info("R06.a: the bounded selection truncates to its limit field only directly after a sort, finishes with sort -> "
+    from . import C20 as _RC20
+    _RC20.api_effects(ctx, "R06.h", which=("limit",))
+    return info("R06.h: set_limit really stores the limit on every call (the registry API is not exercised by the repository's tests). R06.a: the bounded selection truncates to its limit field only directly after a sort, finishes with sort -> "
                 "truncate(limit) -> reverse before the first pop under the done flag, forwards (x, y) to the user comparator in "
                 "order; the limit is self.limit at every selection site; the search pipeline is ixs -> hit -> score -> "
                 "hit_matches -> selection(compare_hits) -> {id, highlight}; R06.b: candidate cap size×c with c >= 10 over "
